@@ -31,7 +31,7 @@ def dump_mir(kind="lib"):
                "-C", "overflow-checks=on", "-C", "debug-assertions=off", "-A", "warnings"]
     else:
         subprocess.run(["touch", os.path.join(REPO, "src", "bin", "main.rs")], check=True)
-        cmd = ["cargo", "+nightly", "rustc", "--offline", "--bin", "scrut", "--no-default-features", "--",
+        cmd = ["cargo", "+nightly", "rustc", "--offline", "--bin", "scrut", "--",      # default features: the shipped binary
                "-Zunpretty=mir", "-C", "overflow-checks=on", "-C", "debug-assertions=off", "-A", "warnings"]
     r = subprocess.run(cmd, cwd=REPO, stdout=subprocess.PIPE, stderr=subprocess.PIPE, text=True,
                        env=common.env_offline({"CARGO_TARGET_DIR": target, "RUSTFLAGS": "--cfg %s" % common.GUARD}))
